@@ -21,6 +21,8 @@
 //   updline <flgH>                         `upd` op line built from the engine's own efc arrays, jar = J*qacc - aref
 //   impline                                `imp` op line built from the engine's own efc arrays, followed by ` => ` and the
 //                                          efc_R / efc_D / contact.mu that the real mj_makeImpedance(m, d) computes from them
+//   islandline                             island-ordered parameter copies (iefc_type/id/frictionloss/D/R), the efc<->iefc maps and
+//                                          the per-island counts next to the global arrays (C12: the copies are the gather)
 // Call histories on one mjData (C11: the admissibility / J'f clauses hold after EVERY forward call, whatever the calls before):
 //   flags <disableflags> <enableflags>     m->opt.disableflags / enableflags (user-settable between calls)       -> ok
 //   eqactive b*neq                         d->eq_active                                                          -> ok
@@ -420,6 +422,33 @@ static void op_impline(void) {
   free(sR); free(sD); free(sK); free(sA); free(smu); free(written);
 }
 
+// island-ordered copies of the constraint parameters (what the per-island solvers hand to mj_constraintUpdate_impl)
+// next to the global arrays and the maps, after a forward call:
+//   isl <nisland> <nefc> | a island_iefcadr* | n island_nefc* | e island_ne* | f island_nf* | i2e map_iefc2efc* | e2i map_efc2iefc*
+//       | E {type id floss D R}*nefc (global order) | I {type id floss D R}*nefc (island order)
+static void op_islandline(void) {
+  int nefc = d->nefc, ni = d->nisland;
+  if (!nefc || ni <= 0 || !d->iefc_D || !d->map_iefc2efc) { printf("isl 0 %d\n", nefc); return; }
+  printf("isl %d %d | a", ni, nefc);
+  for (int i = 0; i < ni; i++) printf(" %d", d->island_iefcadr[i]);
+  printf(" | n"); for (int i = 0; i < ni; i++) printf(" %d", d->island_nefc[i]);
+  printf(" | e"); for (int i = 0; i < ni; i++) printf(" %d", d->island_ne[i]);
+  printf(" | f"); for (int i = 0; i < ni; i++) printf(" %d", d->island_nf[i]);
+  printf(" | i2e"); for (int i = 0; i < nefc; i++) printf(" %d", d->map_iefc2efc[i]);
+  printf(" | e2i"); for (int i = 0; i < nefc; i++) printf(" %d", d->map_efc2iefc[i]);
+  printf(" | E");
+  for (int i = 0; i < nefc; i++) {
+    printf(" %d %d ", d->efc_type[i], d->efc_id[i]); put_hex(d->efc_frictionloss[i]);
+    printf(" "); put_hex(d->efc_D[i]); printf(" "); put_hex(d->efc_R[i]);
+  }
+  printf(" | I");
+  for (int i = 0; i < nefc; i++) {
+    printf(" %d %d ", d->iefc_type[i], d->iefc_id[i]); put_hex(d->iefc_frictionloss[i]);
+    printf(" "); put_hex(d->iefc_D[i]); printf(" "); put_hex(d->iefc_R[i]);
+  }
+  printf("\n");
+}
+
 typedef struct { const char* name; int which; } SetField;
 
 static void op_set(char** tok, int n) {
@@ -469,7 +498,7 @@ int main(void) {
       else printf("ok %d %d %d\n", (int)m->nq, (int)m->nv, (int)m->ngeom);
     } else if (strcmp(op, "opt") && strcmp(op, "adhesion") && strcmp(op, "set") && strcmp(op, "reset") &&
                strcmp(op, "step") && strcmp(op, "fwd") && strcmp(op, "fwdq") && strcmp(op, "updline") && strcmp(op, "impline") &&
-               strcmp(op, "flags") && strcmp(op, "eqactive") && strcmp(op, "refwd")) {
+               strcmp(op, "flags") && strcmp(op, "eqactive") && strcmp(op, "refwd") && strcmp(op, "islandline")) {
       printf("bad-op\n");
     } else if (!m || !d) {
       printf("error no model\n");
@@ -490,6 +519,7 @@ int main(void) {
     else if (!strcmp(op, "fwdq")) { mj_forward(m, d); printf("ok %d %d\n", d->nefc, d->ncon); }
     else if (!strcmp(op, "updline") && n == 2) op_updline(atoi(tok[1]) ? 1 : 0);
     else if (!strcmp(op, "impline") && n == 1) op_impline();
+    else if (!strcmp(op, "islandline") && n == 1) op_islandline();
     else if (!strcmp(op, "flags") && n == 3) {
       m->opt.disableflags = atoi(tok[1]); m->opt.enableflags = atoi(tok[2]);
       printf("ok\n");
